@@ -48,6 +48,10 @@ def gen_case(g, r, kind):
         ms = [g.obj(2, names, keys=sorted(r.sample(["a", "b", "c", "k"], r.randrange(1, 4))), index=False) for _ in range(r.randrange(1, 3))]
         t = ms[0] if len(ms) == 1 else ["AnyOf", ms]
         if kind == "keyof":
+            # some members also carry an index signature over numbers (or strings): its key type joins the declared names
+            if r.random() < 0.45:
+                for m in ms:
+                    if r.random() < 0.7: m[2] = [r.choice([["Number"], ["Number"], ["String"]]), [True, g.leaf()]]
             return env, ["keyof", ["ty", t]], ("keyof", t, None)
         common_keys = set.intersection(*[set(k for k, _ in m[1]) for m in ms])
         if not common_keys:
@@ -77,8 +81,14 @@ def expected(sem, spec, v):
     ms = object_members(sem, a)
     if ms is None: raise semref.Incomplete("keyof/index operand")
     if op == "keyof":
-        keys = set.intersection(*[set(k for k, _ in m[1]) for m in ms]) if ms else set()
-        return v[0] == "s" and v[1] in keys
+        def has_key(m):
+            if v[0] == "s" and v[1] in set(k for k, _ in m[1]): return True
+            if m[2] is not None:
+                kt = semref.strip(m[2][0])
+                if kt[0] == "Number" and v[0] == "num": return True
+                if kt[0] == "String" and v[0] == "s": return True
+            return False
+        return bool(ms) and all(has_key(m) for m in ms)
     # indexed access: the union of the property types (an optional property may be nullish)
     for m in ms:
         d = dict((k, p) for k, p in m[1])
@@ -259,6 +269,8 @@ def check(run):
                 vs, _ = sem.enumerate(t, uni, 3, 25)
                 pool += vs
             pool += sem._all(uni, 2, 20)
+            if spec[0] == "keyof":
+                pool += [S(k) for k in sorted(uni[2])] + [I(0), I(3)]       # the key names themselves are the values in question
             first_bad = None
             for v in pool:
                 if expected(sem, spec, v) != sem.member(root, v, False):
